@@ -162,3 +162,129 @@ Proof.
       change (2 ^ 64) with 18446744073709551616;
       match goal with |- context [?a <? ?b] => destruct (Z.ltb_spec a b) end; lia.
 Qed.
+
+Lemma memext_den s st rn rm option (sbit : bool) amount :
+  wf s -> emb s st -> 0 <= rn < 32 -> 0 <= rm < 32 -> (option = 2 \/ option = 3 \/ option = 6 \/ option = 7) ->
+  (amount = 0 \/ amount = 1 \/ amount = 2 \/ amount = 3) -> (sbit = false -> amount = 0) ->
+  let k := decode_ext option in
+  exists a_e, mem_operand_address (OMemExt (xreg_sp true rn) (xreg_zr (ext_is_x k) rm) (regoff_shift k sbit amount)) = Ok (a_e, None) /\
+              den (st_env st) a_e = Ok (mkc 64 (wrap64 (SPorX s rn + ExtendReg s 64 rm k amount))).
+Proof.
+  intros Hw He Hn Hm Hopt Ham Hsb k.
+  destruct (regoff_den s st rm option sbit amount Hw He Hm Hopt Ham Hsb) as (o1 & C1 & B1 & D1). fold k in C1, D1.
+  destruct (xzr_xsp_range true rn Hn) as [_ Hbase].
+  destruct (reg_get_den s st _ Hw He Hbase) as (be & G & Bb & Db).
+  rewrite reg_bits_sp in Bb, Db. cbn [dsize] in Bb, Db. rewrite areg_val_sp64 in Db by assumption.
+  cbn [mem_operand_address]. rewrite G. cbn [bind].
+  destruct (reg_get (xreg_zr (ext_is_x k) rm)) as [o0| |]; cbn [bind] in C1 |- *; try discriminate.
+  rewrite C1. cbn [bind]. rewrite mk_bin_ok by congruence. cbn [unwrap bind].
+  eexists. split; [reflexivity|].
+  rewrite (den_bin _ Add _ _ 64 _ _ Db D1). cbn [sp_bin]. reflexivity.
+Qed.
+
+(* ------------------------------------------------------------------ C6.2.168 LDR (register) .. C6.2.323 STR (register) and the B/H/S variants *)
+Theorem ldst_reg_sim addr size opc rm option (sbit : bool) rn rt :
+  0 <= size < 4 -> 0 <= opc < 4 -> decode_ldst_opc_ok size opc = true ->
+  (option = 2 \/ option = 3 \/ option = 6 \/ option = 7) ->
+  0 <= rm < 32 -> 0 <= rn < 32 -> 0 <= rt < 32 ->
+  sim addr (ILdStReg size opc rm option sbit rn rt).
+Proof.
+  intros Hsz Hop Hok Hopt Hm_ Hn Ht s st ops succs s' Hw Hpc Ha He Hm Hl Hs.
+  set (amount := if sbit then size else 0) in *.
+  assert (Ham : amount = 0 \/ amount = 1 \/ amount = 2 \/ amount = 3) by (unfold amount; destruct sbit; lia).
+  assert (Hsb : sbit = false -> amount = 0) by (intros ->; reflexivity).
+  set (k := decode_ext option) in *.
+  set (A := wrap64 (SPorX s rn + ExtendReg s 64 rm k amount)).
+  destruct (memext_den s st rn rm option sbit amount Hw He Hn Hm_ Hopt Ham Hsb) as (a_e & MA & DA). fold k A in MA, DA.
+  assert (HA : 0 <= A < 2 ^ 64) by apply wrap64_range.
+  (* specification *)
+  cbn [a64step] in Hs. fold amount k A in Hs.
+  cbn [footprint] in Hm. fold amount k A in Hm.
+  (* the lifter *)
+  unfold lift in Hl. cbn [operands_of] in Hl. fold k amount in Hl.
+  change (match k with XUXTX => if sbit then Some (BLSL amount) else None | _ => Some (bext_of k amount) end)
+    with (regoff_shift k sbit amount) in Hl.
+  assert (Hfin : forall R ops', apc R = apc s ->
+            (exists st', (length ops' <= 3)%nat /\ run_ops ops' st = OFall st' /\ emb R st') ->
+            exists st', run_lifted (graph_of addr ops') (merge_successors [(addr + 4, None)]) st = Ok (st', apc (nextPC R)) /\
+                        emb (nextPC R) st').
+  { intros R ops' HpR (st' & Hlen & Hr & Hemb). apply (finish_fall_ops' addr s st _ ops' st'); try assumption. lia. }
+  assert (size = 0 \/ size = 1 \/ size = 2 \/ size = 3) as Hsize by lia.
+  destruct (Z.eq_dec opc 0) as [-> | Hopn].
+  - rewrite ldst_access_store in Hs by assumption.
+    destruct (mem_wr s A (Z.to_nat (2 ^ size)) (X s rt mod 2 ^ (8 * 2 ^ size))) as [s1|] eqn:Ewr; [|discriminate].
+    inversion Hs; subst s'; clear Hs.
+    assert (Hp1 : apc s1 = apc s).
+    { unfold mem_wr in Ewr. destruct (2 ^ 64 <? A + Z.of_nat (Z.to_nat (2 ^ size))); [discriminate|]. inversion Ewr. reflexivity. }
+    Ltac strg_case Hl Hfin Hw He Ht MA DA HA Ewr Hp1 sfr trunc n :=
+      destruct (xzr_xsp_range sfr _ Ht) as [Hrt _];
+      destruct (b_str_sim_g _ _ _ _ _ _ Hw He Hrt MA DA HA trunc n _ ltac:(lia)
+                  ltac:(first [ (rewrite reg_bits_zr; reflexivity) | (split; [reflexivity|split; [rewrite reg_bits_zr; reflexivity|lia]]) ]) Ewr)
+        as (ops' & st' & B1 & Blen & B2 & B3);
+      cbn [dispatch terminating] in Hl; rewrite B1 in Hl; cbn [bind fst snd] in Hl; inversion Hl; subst; clear Hl;
+      match goal with HB2 : run_ops ?o _ = OFall ?s2 |- _ => apply (Hfin _ o Hp1); exists s2; (split; [lia|split; assumption]) end.
+    destruct Hsize as [-> | [-> | [-> | ->]]].
+    + change (ldst_mnem 0 0) with MStrb in Hl. change (ldst_rt 0 0 rt) with (xreg_zr false rt) in Hl.
+      change (Z.to_nat (2 ^ 0)) with 1%nat in *.
+      replace (X s rt mod 2 ^ (8 * 2 ^ 0)) with (areg_val s (xreg_zr false rt) mod 2 ^ (8 * Z.of_nat 1)) in Ewr
+        by (rewrite areg_val_zr by assumption; unfold Xw; cbn [dsize]; change (2 ^ (8 * Z.of_nat 1)) with 256;
+            change (2 ^ (8 * 2 ^ 0)) with 256; change (2 ^ 32) with 4294967296; lia).
+      strg_case Hl Hfin Hw He Ht MA DA HA Ewr Hp1 false (Some 8) 1%nat.
+    + change (ldst_mnem 1 0) with MStrh in Hl. change (ldst_rt 1 0 rt) with (xreg_zr false rt) in Hl.
+      change (Z.to_nat (2 ^ 1)) with 2%nat in *.
+      replace (X s rt mod 2 ^ (8 * 2 ^ 1)) with (areg_val s (xreg_zr false rt) mod 2 ^ (8 * Z.of_nat 2)) in Ewr
+        by (rewrite areg_val_zr by assumption; unfold Xw; cbn [dsize]; change (2 ^ (8 * Z.of_nat 2)) with 65536;
+            change (2 ^ (8 * 2 ^ 1)) with 65536; change (2 ^ 32) with 4294967296; lia).
+      strg_case Hl Hfin Hw He Ht MA DA HA Ewr Hp1 false (Some 16) 2%nat.
+    + change (ldst_mnem 2 0) with MStr in Hl. change (ldst_rt 2 0 rt) with (xreg_zr false rt) in Hl.
+      change (Z.to_nat (2 ^ 2)) with 4%nat in *.
+      replace (X s rt mod 2 ^ (8 * 2 ^ 2)) with (areg_val s (xreg_zr false rt) mod 2 ^ (8 * Z.of_nat 4)) in Ewr
+        by (rewrite areg_val_zr by assumption; unfold Xw; cbn [dsize]; change (2 ^ (8 * Z.of_nat 4)) with 4294967296;
+            change (2 ^ (8 * 2 ^ 2)) with 4294967296; change (2 ^ 32) with 4294967296; lia).
+      strg_case Hl Hfin Hw He Ht MA DA HA Ewr Hp1 false (@None Z) 4%nat.
+    + change (ldst_mnem 3 0) with MStr in Hl. change (ldst_rt 3 0 rt) with (xreg_zr true rt) in Hl.
+      change (Z.to_nat (2 ^ 3)) with 8%nat in *.
+      replace (X s rt mod 2 ^ (8 * 2 ^ 3)) with (areg_val s (xreg_zr true rt) mod 2 ^ (8 * Z.of_nat 8)) in Ewr
+        by (rewrite areg_val_zr by assumption; unfold Xw; cbn [dsize]; change (2 ^ (8 * Z.of_nat 8)) with 18446744073709551616;
+            change (2 ^ (8 * 2 ^ 3)) with 18446744073709551616; change (2 ^ 64) with 18446744073709551616; lia).
+      strg_case Hl Hfin Hw He Ht MA DA HA Ewr Hp1 true (@None Z) 8%nat.
+  - rewrite ldst_access_load in Hs by lia.
+    destruct (mem_rd s A (Z.to_nat (2 ^ size))) as [data|] eqn:Erd; [|discriminate]. inversion Hs; subst s'; clear Hs.
+    assert (Hm' : mapped st (addr_range A (Z.to_nat (2 ^ size)))) by exact Hm.
+    assert (opc = 1 \/ opc = 2 \/ opc = 3) as Hopc by lia.
+    Ltac ldrg_case Hl Hfin Hw He Ht MA DA HA Hm' Erd sfr fixed n :=
+      destruct (xzr_xsp_range sfr _ Ht) as [Hrt _];
+      destruct (b_ldr_sim_g _ _ _ _ _ _ Hw He Hrt MA DA HA fixed n _ ltac:(lia)
+                  ltac:(first [reflexivity | (cbv beta iota; rewrite reg_bits_zr; reflexivity)]) Hm' Erd)
+        as (ops' & st' & B1 & Blen & B2 & B3);
+      cbn [dispatch terminating] in Hl; rewrite B1 in Hl; cbn [bind fst snd] in Hl; inversion Hl; subst; clear Hl;
+      rewrite !areg_write_zr in B3;
+      match goal with HB2 : run_ops ?o _ = OFall ?s2 |- _ => apply (Hfin _ o (apc_setX _ _ _)); exists s2; (split; [lia|split; assumption]) end.
+    Ltac ldrsg_case Hl Hfin Hw He Ht MA DA HA Hm' Erd sfr width n :=
+      destruct (xzr_xsp_range sfr _ Ht) as [Hrt _];
+      destruct (b_ldrs_sim_g _ _ _ _ _ _ Hw He Hrt MA DA HA width n _ ltac:(lia) ltac:(reflexivity)
+                  ltac:(rewrite reg_bits_zr; cbn; lia) ltac:(intros; rewrite reg_bits_zr; try reflexivity; try lia) Hm' Erd)
+        as (ops' & st' & B1 & Blen & B2 & B3);
+      cbn [dispatch terminating] in Hl; rewrite B1 in Hl; cbn [bind fst snd] in Hl; inversion Hl; subst; clear Hl;
+      rewrite !areg_write_zr, reg_bits_zr in B3;
+      match goal with HB2 : run_ops ?o _ = OFall ?s2 |- _ => apply (Hfin _ o (apc_setX _ _ _)); exists s2; (split; [lia|split; assumption]) end.
+    destruct Hsize as [-> | [-> | [-> | ->]]]; destruct Hopc as [-> | [-> | ->]]; try discriminate Hok.
+    + change (ldst_mnem 0 1) with MLdrb in Hl. change (ldst_rt 0 1 rt) with (xreg_zr false rt) in Hl.
+      change (Z.to_nat (2 ^ 0)) with 1%nat in *. ldrg_case Hl Hfin Hw He Ht MA DA HA Hm' Erd false (Some 8) 1%nat.
+    + change (ldst_mnem 0 2) with MLdrsb in Hl. change (ldst_rt 0 2 rt) with (xreg_zr true rt) in Hl.
+      change (Z.to_nat (2 ^ 0)) with 1%nat in *. ldrsg_case Hl Hfin Hw He Ht MA DA HA Hm' Erd true 8 1%nat.
+    + change (ldst_mnem 0 3) with MLdrsb in Hl. change (ldst_rt 0 3 rt) with (xreg_zr false rt) in Hl.
+      change (Z.to_nat (2 ^ 0)) with 1%nat in *. ldrsg_case Hl Hfin Hw He Ht MA DA HA Hm' Erd false 8 1%nat.
+    + change (ldst_mnem 1 1) with MLdrh in Hl. change (ldst_rt 1 1 rt) with (xreg_zr false rt) in Hl.
+      change (Z.to_nat (2 ^ 1)) with 2%nat in *. ldrg_case Hl Hfin Hw He Ht MA DA HA Hm' Erd false (Some 16) 2%nat.
+    + change (ldst_mnem 1 2) with MLdrsh in Hl. change (ldst_rt 1 2 rt) with (xreg_zr true rt) in Hl.
+      change (Z.to_nat (2 ^ 1)) with 2%nat in *. ldrsg_case Hl Hfin Hw He Ht MA DA HA Hm' Erd true 16 2%nat.
+    + change (ldst_mnem 1 3) with MLdrsh in Hl. change (ldst_rt 1 3 rt) with (xreg_zr false rt) in Hl.
+      change (Z.to_nat (2 ^ 1)) with 2%nat in *. ldrsg_case Hl Hfin Hw He Ht MA DA HA Hm' Erd false 16 2%nat.
+    + change (ldst_mnem 2 1) with MLdr in Hl. change (ldst_rt 2 1 rt) with (xreg_zr false rt) in Hl.
+      change (Z.to_nat (2 ^ 2)) with 4%nat in *. ldrg_case Hl Hfin Hw He Ht MA DA HA Hm' Erd false (@None Z) 4%nat.
+    + change (ldst_mnem 2 2) with MLdrsw in Hl. change (ldst_rt 2 2 rt) with (xreg_zr true rt) in Hl.
+      change (Z.to_nat (2 ^ 2)) with 4%nat in *. ldrsg_case Hl Hfin Hw He Ht MA DA HA Hm' Erd true 32 4%nat.
+    + change (ldst_mnem 3 1) with MLdr in Hl. change (ldst_rt 3 1 rt) with (xreg_zr true rt) in Hl.
+      change (Z.to_nat (2 ^ 3)) with 8%nat in *. ldrg_case Hl Hfin Hw He Ht MA DA HA Hm' Erd true (@None Z) 8%nat.
+Qed.
